@@ -38,7 +38,12 @@ def main(run: Run) -> int:
             if thorough or k % 4 == fl:
                 jobs.append({"fn": "resolve", "globals": dict(g, FLAGS=fl, LO=lo, HI=hi, HISTORY=1 if thorough else 0), "timeout": 900, "bound": f"flags resolve_packages={bool(fl & 1)}, replace_time_conditions={bool(fl & 2)}"})
     jobs.sort(key=lambda j: -(j["globals"]["HI"] - j["globals"]["LO"]))
-    feats = lambda r, rep: {"part": "resolve"}  # noqa: E731
+    from vf.harness import resolve_harness as RH
+
+    for e1 in range(len(RH.CER_EXPRS) if thorough else 2):
+        for ta in range(len(RH.CER_TABLES) if thorough else 3):
+            jobs.append({"fn": "cer_history", "globals": {"FIXH": (e1, ta)}, "timeout": 600, "bound": "shipped ContentEvaluationResult-based package resolver, one instance: resolution (expression, package table of the current result) followed by a second one (4 expressions x 5 tables incl. no packages x results without id / with two different ids)"})
+    feats = lambda r, rep: {"part": r["fn"]}  # noqa: E731
     for r, j in zip(xh.run_jobs(run, "vf.harness.resolve_harness", jobs), jobs):
         xh.default_verdict(run, r, feats, bound=j["bound"])
     run.bounds["expressions"] = f"{n} well-formed expressions: every 1- and 2-leaf combination of (key, [1P], [2P], [3P0..4], [UB1..3]) with U/O/X, hand-picked 3-leaf shapes (repeated and neighbouring abbreviations, nesting), bare / behind 5 indicator spellings / inside a 3-part AHB expression" + ("; all 3-leaf combinations of 4 leaf kinds" if thorough else "")
